@@ -27,12 +27,12 @@
 #endif
 #ifdef LEGACY
 #include "rculfstack.c"
-typedef struct cds_lfs_node_rcu node_t;
-typedef struct cds_lfs_stack_rcu stack_t;
+typedef struct cds_lfs_node_rcu lnode_t;
+typedef struct cds_lfs_stack_rcu lstack_t;
 #else
 #include "lfstack.c"
-typedef struct cds_lfs_node node_t;
-typedef struct cds_lfs_stack stack_t;
+typedef struct cds_lfs_node lnode_t;
+typedef struct cds_lfs_stack lstack_t;
 #endif
 
 /* own scheduling points (all other threads frozen): push = (MB CAS) x 2; __pop = LD LD CAS MB from
@@ -45,8 +45,8 @@ static const int kwaitfree[] = { 0, 1, 0, 1 };
 #include "stack_oracle.h"
 
 #define MAXN 48
-static stack_t stk;
-static struct lnode { node_t n; } nodes[MAXN];
+static lstack_t stk;
+static struct lnode { lnode_t n; } nodes[MAXN];
 static int pool_free[MAXN];
 static int nnodes = 8, npushers = 2, npoppers = 1, nops = 12, scheme = SCH_MUTEX;
 static int running_others, drainer_tid, reclaimer_tid;
@@ -116,7 +116,7 @@ static void runlock(void) { vrt_log("CALL runlock"); rcu_read_unlock(); vrt_log(
 /* locked: 1 = cds_lfs_pop_blocking (takes the internal mutex), 0 = __cds_lfs_pop / cds_lfs_pop_rcu */
 static void *do_pop(int locked)
 {
-	node_t *n;
+	lnode_t *n;
 	if (!locked) c17_op_begin(K_POP);
 	vrt_log("CALL pop locked=%d", locked);
 #ifdef LEGACY
